@@ -1,0 +1,128 @@
+//go:build verif
+
+// Safety-sweep contracts (no explicit panic, index/slice in range, allocation
+// sizes non-negative, wire-decoded pointers checked before use) for functions
+// that need no precondition. Generated from a zero-annotation sweep; checked by
+// /verif/govc. Comment-only file.
+package fdo
+
+//@ func fdo.TO0Client.hello
+//@   props C10(sweep)
+//@   sweep bounds,panic,make,nilmem,div
+
+//@ func fdo.TO0Server.helloAck
+//@   props C10(sweep)
+//@   sweep bounds,panic,make,nilmem,div
+
+//@ func fdo.TO1
+//@   props C10(sweep)
+//@   sweep bounds,panic,make,nilmem,div
+
+//@ func fdo.TO1Server.helloRVAck
+//@   props C10(sweep)
+//@   sweep bounds,panic,make,nilmem,div
+
+//@ func fdo.TO2Server.ovNextEntry
+//@   props C10(sweep)
+//@   sweep bounds,panic,make,nilmem,div
+
+//@ func fdo.TO2Server.ownerKey
+//@   props C10(sweep)
+//@   sweep bounds,panic,make,nilmem,div
+
+//@ func fdo.TO2Server.ownerServiceInfo
+//@   props C10(sweep)
+//@   sweep bounds,panic,make,nilmem,div
+
+//@ func fdo.TO2Server.ownerServiceInfoReady
+//@   props C10(sweep)
+//@   sweep bounds,panic,make,nilmem,div
+
+//@ func fdo.TO2Server.produceOwnerServiceInfo
+//@   props C10(sweep)
+//@   sweep bounds,panic,make,nilmem,div
+
+//@ func fdo.TO2Server.to2Done2
+//@   props C10(sweep)
+//@   sweep bounds,panic,make,nilmem,div
+
+//@ func fdo.Voucher.VerifyDeviceCertChain
+//@   props C10(sweep)
+//@   sweep bounds,panic,make,nilmem,div
+
+//@ func fdo.Voucher.VerifyManufacturerCertChain
+//@   props C10(sweep)
+//@   sweep bounds,panic,make,nilmem,div
+
+//@ func fdo.VoucherEntryPayload.VerifyOwnerCertChain
+//@   props C10(sweep)
+//@   sweep bounds,panic,make,nilmem,div
+
+//@ func fdo.VoucherHeader.Equal
+//@   props C10(sweep)
+//@   sweep bounds,panic,make,nilmem,div
+
+//@ func fdo.appStart
+//@   props C10(sweep)
+//@   sweep bounds,panic,make,nilmem,div
+
+//@ func fdo.devmodOwnerModule.HandleInfo
+//@   props C10(sweep)
+//@   sweep bounds,panic,make,nilmem,div
+
+//@ func fdo.handleOwnerModuleMessage
+//@   props C10(sweep)
+//@   sweep bounds,panic,make,nilmem,div
+
+//@ func fdo.handleOwnerModuleMessages
+//@   props C10(sweep)
+//@   sweep bounds,panic,make,nilmem,div
+
+//@ func fdo.hashAlgFor
+//@   props C10(sweep)
+//@   sweep bounds,panic,make,nilmem,div
+
+//@ func fdo.hashSizeForPubKey
+//@   props C10(sweep)
+//@   sweep bounds,panic,make,nilmem,div
+
+//@ func fdo.helloRv
+//@   props C10(sweep)
+//@   sweep bounds,panic,make,nilmem,div
+
+//@ func fdo.newEAT
+//@   props C10(sweep)
+//@   sweep bounds,panic,make,nilmem,div
+
+//@ func fdo.newSignedEntry
+//@   props C10(sweep)
+//@   sweep bounds,panic,make,nilmem,div
+
+//@ func fdo.proveDevice
+//@   props C10(sweep)
+//@   sweep bounds,panic,make,nilmem,div
+
+//@ func fdo.proveToRv
+//@   props C10(sweep)
+//@   sweep bounds,panic,make,nilmem,div
+
+//@ func fdo.reuseCredentials
+//@   props C10(sweep)
+//@   sweep bounds,panic,make,nilmem,div
+
+//@ func fdo.sendDeviceServiceInfo
+//@   props C10(sweep)
+//@   sweep bounds,panic,make,nilmem,div
+
+//@ func fdo.sendDone
+//@   props C10(sweep)
+//@   sweep bounds,panic,make,nilmem,div
+
+//@ func fdo.setHmac
+//@   props C10(sweep)
+//@   sweep bounds,panic,make,nilmem,div
+
+//@ func fdo.stopOwnerPlugin
+//@   props C10(sweep)
+//@   sweep bounds,panic,make,nilmem,div
+
